@@ -2,8 +2,15 @@
    prod, sumbool, sumor map to OCaml's; N, Z, positive, nat, byte stay inductive.
    Compiled with the working directory set to /verif/ocaml (no Extraction Output Directory). *)
 From Coq Require Import ExtrOcamlBasic.
-From GV Require Import Base.Bytes Helpers.Uuid.
+From GV Require Import Base.Bytes Base.Utf8 Base.StrOps Helpers.Uuid Helpers.Email Helpers.Url Helpers.Alnum.
 
 Extraction "model.ml"
   all_bytes b2n
-  isValidHexChar hasValidHyphens hasValidHexChars isMaxUUID isValidUUIDVersionAndVariant IsValidUUID.
+  isValidHexChar hasValidHyphens hasValidHexChars isMaxUUID isValidUUIDVersionAndVariant IsValidUUID
+  decode_rune runes rune_count
+  findAtSymbol isValidLocalPart isValidLocalPartFormat isValidLocalPartChars isValidLocalChar
+  isValidLocalSpecialChar isValidDomainPart validateDomainLabels isValidDomainLabel
+  isValidDomainLabelChars isValidDomainChar IsValidEmail
+  findSchemeEnd isValidSchemeChar hasInvalidChars validateSchemeWithoutHost validateSchemeWithHost
+  isValidHostStart IsValidURL
+  IsValidAlpha IsNumeric.
